@@ -365,6 +365,66 @@ def rule_prevdepth(ctx):
             ctx.ok(rid, key, "%s: depth(e) >= e / 4 + 1 for e = %s" % (what, sorted(vals)), nontrivial=True, fn=g)
 
 
+def rule_table_index(ctx):
+    """lookup tables compiled from MA trees are indexed the same way everywhere: (property - base), saturating"""
+    from ..facts import op_local
+    from ..intervals import value_class
+    rid = "R-TABLE-INDEX"
+    ctx.rule(rid, "the base value of a compiled MA lookup table (field `value_base` of FlatMaTreeNode::Table / SimpleMaTable, and every "
+                  "function parameter that receives it) is only ever subtracted from a property with saturating_sub: thresholds come "
+                  "from the stream and can be near i32::MIN, where a plain subtraction overflows (panic in checked builds, wrong entry "
+                  "otherwise) and the sibling lookups would disagree")
+    md = ctx.prog.crate("jxl_modular")
+    carriers = {}       # fn path -> set of locals
+    fns = [f for f in md.fn_list if f.kind != "Promoted"]
+    for f in fns:
+        for blk in f.blocks:
+            if blk[2]:
+                continue
+            for st in blk[0]:
+                if st[0] == "=" and len(st[1]) == 1 and st[2][0] == "use":
+                    pl = op_place(st[2][1])
+                    if pl is None:
+                        continue
+                    fl = [e for e in pl[1:] if isinstance(e, list) and e[0] == "."]
+                    if fl and pl[-1] is fl[-1] and fl[-1][2] == "value_base":
+                        carriers.setdefault(f.path, set()).update(value_class(f, st[1][0]))
+    # parameters that receive a carrier
+    for _ in range(2):
+        for f in fns:
+            cs = carriers.get(f.path, set())
+            if not cs:
+                continue
+            for b, t in f.calls():
+                c = callee(t)
+                g = md.fn(c.get("res") or c["fn"]) if c else None
+                if g is None:
+                    continue
+                for i, a in enumerate(t[2]):
+                    if op_local(a) in cs:
+                        carriers.setdefault(g.path, set()).update(value_class(g, i + 1))
+    sat = plain = 0
+    for f in fns:
+        cs = carriers.get(f.path)
+        if not cs:
+            continue
+        ctx.seen(f)
+        for b, blk in enumerate(f.blocks):
+            if blk[2]:
+                continue
+            for st in blk[0]:
+                if st[0] == "=" and st[2][0] == "bin" and st[2][1] in ("Sub", "SubWithOverflow", "SubUnchecked") and op_local(st[2][3]) in cs:
+                    plain += 1
+                    ctx.bad(rid, "plain-sub:%s" % f.path, "%s subtracts the table base with a plain `-`: a threshold near i32::MIN overflows "
+                            "(the tree walk uses saturating_sub for the same index)" % f.path, fn=f, pos=st[3])
+            t = blk[1]
+            if t[0] == "call" and callee(t) and callee(t)["fn"].endswith("::saturating_sub") and len(t[2]) == 2 and op_local(t[2][1]) in cs:
+                sat += 1
+                ctx.ok(rid, "saturating:%s" % f.path, "property.saturating_sub(value_base)", nontrivial=True, fn=f)
+    ctx.count(rid + ".saturating-sites", sat)
+    ctx.floor(rid + ".saturating-sites", 1)
+
+
 def main(pid, tier, repo=None):
     ctx = Ctx(pid, tier, configs=("workspace",), repo=repo)
     specconst.run(ctx, pid, floor=2)
@@ -373,6 +433,9 @@ def main(pid, tier, repo=None):
     rule_rle_scope(ctx)
     rule_prevchan(ctx)
     rule_prevdepth(ctx)
+    rule_table_index(ctx)
+    from . import fixguards
+    fixguards.run(ctx, pid)
     ctx.not_decided("that every decoded sample equals the encoded integer: predictors (incl. the self-correcting one), context-tree lookup, "
                     "the specialised fast paths agreeing with the general path, RLE/LZ77 state across channels, inverse RCT / palette / "
                     "squeeze arithmetic, group layout")
